@@ -54,6 +54,7 @@ type verifC04Run struct {
 	dech    *refrtmp.Dechunker // parses what the endpoint writes, to know when a request is completely handed over
 	inbuf   []byte
 	onReq   func(tid float64) // schedule hook: called inside Write when a whole request has been handed to the transport
+	amf3    func(tid float64) bool // answers for which this returns true travel as AMF3 command messages (type 17: one 0x00 byte, then the AMF0 body), as peers that negotiated objectEncoding 3 send them
 }
 
 func (x *verifC04Run) log(kind string, tid float64, seq int, res string) int64 {
@@ -109,7 +110,17 @@ func (x *verifC04Run) deliver(tid float64, reqName string, kind string) (seq int
 	ch = make(chan string, 1)
 	x.decoded[seq] = ch
 	x.peerQ.Log = x.peerQ.Log[:0]
-	x.peer.WritePacket(pkt, 0)
+	if x.amf3 != nil && x.amf3(tid) {
+		body, _ := pkt.MarshalBinary()
+		am := NewMessage()
+		am.MessageType = MessageTypeAMF3Command
+		am.Payload = append([]byte{0}, body...)
+		am.betterCid = pkt.BetterCid()
+		x.peer.WriteMessage(am)
+		x.m.Count("answers_sent_as_amf3_command_messages", 1)
+	} else {
+		x.peer.WritePacket(pkt, 0)
+	}
 	x.fifo = append(x.fifo, verifResp{tid: tid, seq: seq, kind: kind})
 	x.log("delivered", tid, seq, kind)
 	x.toReader.Write(append([]byte(nil), x.peerQ.Log...))
@@ -143,7 +154,7 @@ func (x *verifC04Run) readerLoop(p *Protocol, done chan struct{}) {
 			return
 		}
 		pkt, derr := p.DecodeMessage(msg)
-		if msg.MessageType != MessageTypeAMF0Command {
+		if msg.MessageType != MessageTypeAMF0Command && msg.MessageType != MessageTypeAMF3Command {
 			continue // protocol control from the peer (window size, bandwidth): decoded, not a response
 		}
 		x.fifoMu.Lock()
@@ -534,7 +545,10 @@ func TestVerif_C04_Stress(t *testing.T) {
 	m := mon.New("C04", "stress")
 	defer m.Finish(t)
 	m.Rule("stress: free-running writer and reader goroutines, the transport answers every request immediately from inside Write without waiting; " +
-		"every answer must be matched exactly once; run under the race detector; distinct = (requests, matched) bucket")
+		"every answer must be matched exactly once; in every second run every third answer travels as an AMF3 command message (type 17); " +
+		"pipeline: 65/100/257/600/1025 requests (one connect, then createStreams) are all handed to the transport before any answer, then all answers arrive oldest first, " +
+		"newest first or in PRNG order (a third of the runs with every second answer as AMF3) and each must decode as its response type; " +
+		"run under the race detector; distinct = (requests, matched) bucket | (pipeline depth, answer order, amf3)")
 	n := m.N(100, 20000)
 	m.Require("answers_matched", int64(n*10))
 	mon.Parallel(n, func(w, i int) {
@@ -562,6 +576,10 @@ func TestVerif_C04_Stress(t *testing.T) {
 		}
 		nreq := r.Range(10, 60)
 		rep := map[string]interface{}{"case": i}
+		if i%2 == 1 {
+			x.amf3 = func(t float64) bool { return int(t)%3 == 0 }
+			rep["every_third_answer_as_amf3"] = true
+		}
 		m.Guard("rtmp.c04.stress", nil, func() {
 			for k := 0; k < nreq; k++ {
 				p := NewCreateStreamPacket()
@@ -591,6 +609,102 @@ func TestVerif_C04_Stress(t *testing.T) {
 				m.Violationf("c04:request-never-reached-transport", rep, "%d requests, %d seen", nreq, len(cs))
 			}
 			m.Classf("req%d/matched%d", nreq/10*10, matched/10*10)
+		})
+		x.toReader.Close()
+		<-done
+		wg.Wait()
+	})
+	// deep pipeline: the writer hands N requests to the transport before the peer answers any of them (a client that queues its
+	// commands, a peer that is slow); then all N answers arrive, oldest first, newest first or in PRNG order.  Every one of them
+	// arrives after its request was handed over, so every one must be matched.  No clock: the answers are pushed after the last
+	// WritePacket has returned.
+	depths := []int{65, 100, 257, 600, 1025}
+	np := m.N(20, 1500)
+	m.Require("pipelined_answers_matched", int64(np*65))
+	m.Require("answers_sent_as_amf3_command_messages", int64(n))
+	mon.Parallel(np, func(w, i int) {
+		r := m.Rand("pipeline", i)
+		m.Case()
+		x := &verifC04Run{m: m, decoded: map[int]chan string{}, dech: refrtmp.NewDechunker()}
+		x.toReader = vnet.NewBlockingPipe(vnet.PickSeg(r))
+		x.peerQ = vnet.NewQueue(vnet.SegWhole())
+		x.peerQ.KeepLog = true
+		x.peer = NewProtocol(vnet.RW{Reader: x.peerQ, Writer: x.peerQ})
+		ep := NewProtocol(vnet.RW{Reader: x.toReader, Writer: x})
+		done := make(chan struct{})
+		var wg sync.WaitGroup
+		m.Go(&wg, "rtmp.c04.reader", func() { x.readerLoop(ep, done) })
+		var handed []float64
+		x.onReq = func(t float64) { handed = append(handed, t) } // on the writer's goroutine, read after its last write
+		if i%3 == 2 {
+			x.amf3 = func(t float64) bool { return int(t)%2 == 0 }
+		}
+		nreq := depths[i%len(depths)]
+		order := []string{"oldest-first", "newest-first", "prng"}[(i/len(depths))%3]
+		rep := map[string]interface{}{"case": i, "scenario": "pipeline", "outstanding": nreq, "answer_order": order}
+		m.Guard("rtmp.c04.pipeline", nil, func() {
+			for k := 0; k < nreq; k++ {
+				var p Packet
+				if k == 0 {
+					cp := NewConnectAppPacket()
+					cp.TransactionID = amf0.Number(1)
+					p = cp
+				} else {
+					cs := NewCreateStreamPacket()
+					cs.TransactionID = amf0.Number(1 + k)
+					p = cs
+				}
+				if err := ep.WritePacket(p, 0); err != nil {
+					m.Violationf("c04:write-error", rep, "%v", err)
+					return
+				}
+			}
+			if len(handed) != nreq {
+				m.Violationf("c04:request-never-reached-transport", rep, "%d requests, %d seen", nreq, len(handed))
+				return
+			}
+			idx := make([]int, nreq)
+			for k := range idx {
+				idx[k] = k
+			}
+			switch order {
+			case "newest-first":
+				for a, b := 0, nreq-1; a < b; a, b = a+1, b-1 {
+					idx[a], idx[b] = idx[b], idx[a]
+				}
+			case "prng":
+				idx = r.Perm(nreq)
+			}
+			type pend struct {
+				tid  float64
+				want string
+				ch   chan string
+			}
+			var ps []pend
+			for _, k := range idx {
+				name, want := "createStream", "*rtmp.CreateStreamResPacket"
+				if handed[k] == 1 {
+					name, want = "connect", "*rtmp.ConnectAppResPacket"
+				}
+				_, ch := x.deliver(handed[k], name, "answer")
+				ps = append(ps, pend{handed[k], want, ch})
+			}
+			matched := 0
+			for _, q := range ps {
+				res, ok := verifWait(m, q.ch, "pipeline decode")
+				if !ok {
+					return
+				}
+				if res == q.want {
+					matched++
+					m.Count("pipelined_answers_matched", 1)
+				} else {
+					rep["tid"] = q.tid
+					m.Violationf("c04:response-after-handover-not-matched:pipeline", rep, "with %d requests outstanding, the answer for tid %v (answers %s) was decoded as %q, want %s", nreq, q.tid, order, res, q.want)
+					return
+				}
+			}
+			m.Classf("pipeline/n%d/%s/amf3=%v", nreq, order, x.amf3 != nil)
 		})
 		x.toReader.Close()
 		<-done
